@@ -1,13 +1,182 @@
-"""C22 - WIP"""
+"""C22 - query time axes are aligned, gap-free and bounded.
+
+Spec: Timescale.tla is the CONTRACT of data_model.GetTimescale / GetLODs as a relation between the
+      arguments of a call and its result, clause by clause (strictly increasing; differences = the
+      step of the covering level, calendar months from a month table; alignment under the
+      configured offset / location; steps from the table and finer toward the present; point
+      limit; the view = the points inside [start, end); coverage from StartX; storage ranges
+      contiguous and equal to the points).
+MC:   TimescaleModel.tla - a small abstract model of the level-of-detail planner (three table
+      levels shaped like the real ones, steps 15/5/1, point budget 12); TLC enumerates every
+      (start, end, step, now, width, offset, utc, resolution, mode, extend) of the instance and
+      checks every clause of the contract on the model's output.
+I->S: (1) boundary grid x seeded random inputs on the real GetTimescale/GetLODs with the real
+      tables; every case is screened in Go and a stratified sample (plus every flagged case) is
+      judged by TLC (TimescaleTrace.tla).  (2) the real planner with the model's tiny table over
+      the model's whole input grid: judged by the contract and compared with the model's output
+      (TimescaleSmallTrace.tla).  (3) roundTime / shiftTimestamp / calcUTCOffset of lod.go.
+Level: contract validation of observed outputs plus the small abstract model (no exhaustive
+      design-level result for the real tables)."""
+import json
+import re
 from vlib import Infra
+
+CLAUSES = ["ErrorsAgree", "NoUnexpectedError", "NonEmpty", "LODSteps", "LODFiner", "Limit", "Increasing", "LenSum",
+           "PointShape", "Diffs", "Aligned", "View", "CoverStart", "CoverEnd", "Ranges",
+           "Round", "Shift", "CalcRange", "CalcFixedZone", "CalcSomeZone", "CalcCurrentZone"]
+MONTH = 2678400
+REAL_CONSTS = {"maxPoints": 7680, "MaxSlice": 8192, "month": MONTH,
+               "resolutions": "[1 5 15 60 300 900 3600 14400 86400 604800 2678400]"}
+
+
+def signature(rec, clause):
+    """Canonical class of a rejected record: a known finding only for exactly the inputs and clauses
+    the finding is about, otherwise the clause of the contract."""
+    if rec.get("ev") == "Q" and rec.get("step") == MONTH:
+        if rec.get("loc") == "America/Asuncion" and rec.get("gen") == "known-dstgap":
+            return "month-start-in-dst-gap"
+        if (rec.get("maxoff") or rec.get("off")) and clause in ("View", "CoverStart", "CoverEnd"):
+            return "monthly-step-with-offset"
+    if rec.get("ev") == "Calc" and clause == "CalcCurrentZone" and rec.get("zone0") != rec.get("zonenow"):
+        return "calcUTCOffset-epoch-zone"
+    return "contract:" + clause
+
+
+def read_lines(path):
+    with open(path) as f:
+        return [l for l in f.read().split("\n") if l.strip()]
+
+
+def judge(ctx, lines, stage, module="TimescaleTrace", timeout=1500):
+    """Every recorded call is judged by every clause (CONSTRAINT Report prints <<"REJ", line, clause>>).
+    Returns {line index (0-based): [clauses]}.  ModelAgrees is reported apart."""
+    if not lines:
+        return {}, {}
+    tv = ctx.tlc(module, module + ".cfg", workers=1, files={"trace.ndjson": "\n".join(lines) + "\n"}, timeout=timeout,
+                 heap="4g", name=stage)
+    if tv.violated:
+        raise Infra("%s: trace validation stopped: %s %s" % (stage, tv.violated, (tv.cex or "")[:600]))
+    if tv.distinct != len(lines):
+        raise Infra("%s: TLC visited %s states for %d recorded calls" % (stage, tv.distinct, len(lines)))
+    rej, dis = {}, {}
+    for p in tv.printed:
+        m = re.match(r'<<"REJ", (\d+), "(\w+)">>', p)
+        if not m:
+            continue
+        k, cl = int(m.group(1)) - 1, m.group(2)
+        if cl == "ModelAgrees":
+            dis.setdefault(k, []).append(cl)
+        elif cl in CLAUSES:
+            rej.setdefault(k, []).append(cl)
+        else:
+            raise Infra("%s: unknown clause %s" % (stage, cl))
+    return rej, dis
+
+
+def brief(rec, limit=900):
+    d = dict(rec)
+    if isinstance(d.get("time"), list) and len(d["time"]) > 12:
+        d["time"] = d["time"][:6] + ["... %d points ..." % len(d["time"])] + d["time"][-4:]
+    if isinstance(d.get("months"), list) and len(d["months"]) > 6:
+        d["months"] = d["months"][:3] + ["..."] + d["months"][-2:]
+    return json.dumps(d, separators=(",", ":"))[:limit]
+
+
+def report(ctx, stage, lines, rej, module="TimescaleTrace"):
+    """Turn rejections into violations (unknown ones are first re-validated alone, with the clauses as
+    TLC invariants).  Returns the number of rejected records."""
+    seen = set()
+    for k in sorted(rej):
+        rec = json.loads(lines[k])
+        for cl in rej[k]:
+            sig = signature(rec, cl)
+            if sig in seen:
+                continue
+            seen.add(sig)
+            keep = ctx.save("rejected_%s_%s.ndjson" % (re.sub(r"\W+", "_", stage), re.sub(r"\W+", "_", sig)), lines[k] + "\n")
+            if sig.startswith("contract:"):
+                tv = ctx.tlc(module, module + "_inv.cfg", workers=1, files={"trace.ndjson": lines[k] + "\n"}, timeout=600,
+                             heap="4g", name=stage + " (re-validation)", expect_violation=True, record=False)
+                if not (tv.violated or "").startswith("invariant:"):
+                    raise Infra("%s: rejection by clause %s is not reproduced by the invariants (%s)" % (stage, cl, tv.violated))
+            ctx.violation(sig, "%s: the real code's output violates clause %s of Timescale.tla: %s" % (stage, cl, brief(rec)), keep)
+    return len(rej)
 
 
 def run(ctx):
     th = ctx.thorough
+    # 1. the abstract model satisfies the contract (exhaustive over the instance)
+    mc = ctx.tlc("TimescaleMC", "Timescale_mc_big.cfg" if th else "Timescale_mc.cfg", workers=8 if th else 6, heap="4g",
+                 timeout=3000 if th else 900, coverage=False, name="TimescaleModel vs contract",
+                 constants={"LevelRel": [35, 13, 0], "LevelSteps": [[15], [15, 5], [15, 5, 1]], "MaxPts": 12, "Limit": 16})
+    ctx.require_model_ok(mc, "TimescaleModel satisfies the contract")
+    ctx.ev.set("exhaustive", False)
+
+    # 2. the real planner, real tables: generator -> Go screen -> TLC on the sample; lod.go helpers
     res, out, rc = ctx.go_test("internal/data_model", "TestVerifC22Timescale",
-                               env={"VERIF_NRANDOM": 200000 if th else 30000}, timeout=1200)
+                               env={"VERIF_NRANDOM": 150000 if th else 5000, "VERIF_GRID_STRIDE": 1 if th else 9,
+                                    "VERIF_NTRACE": 2500 if th else 250, "VERIF_POINT_BUDGET": 1000000 if th else 60000,
+                                    "VERIF_PER_CLASS": 3 if th else 1, "VERIF_NMONTHOFF": 300 if th else 40,
+                                    "VERIF_MAX_BIG": 60 if th else 4},
+                               timeout=2400)
     res = ctx.need_result(res, out, rc, "TestVerifC22Timescale")
-    ctx.log(str(res.get("counters")))
-    for n in res.get("notes", []):
-        if not n.startswith("screen: View") and not n.startswith("screen: CoverEnd"):
-            ctx.log(n[:600])
+    consts = res.get("consts") or {}
+    for k, v in REAL_CONSTS.items():
+        if consts.get(k) != v:
+            raise Infra("the code's constants changed (%s=%s, expected %s): re-instantiate specs/TimescaleTrace.cfg" % (k, consts.get(k), v))
+    cnt = res.get("counters") or {}
+    for n in (res.get("notes") or [])[:8]:
+        ctx.log(n[:500])
+    res5, out5, rc5 = ctx.go_test("internal/api", "TestVerifC22Lod", env={"VERIF_NRANDOM": 20000 if th else 1500}, timeout=2400)
+    res5 = ctx.need_result(res5, out5, rc5, "TestVerifC22Lod")
+    if (res5.get("consts") or {}).get("month") != MONTH:
+        raise Infra("lod.go: _1M changed")
+    qlines = read_lines(res["files"][0])
+    hlines = read_lines(res5["files"][0])
+    lines = qlines + hlines
+    rej, _ = judge(ctx, lines, "real tables and lod.go helpers", timeout=3000)
+    nrej = report(ctx, "real code", lines, rej)
+    nq = sum(1 for k in rej if k < len(qlines))
+    flagged = cnt.get("flagged", 0)
+    unknown_q = [k for k in rej if k < len(qlines) and any(signature(json.loads(lines[k]), c).startswith("contract:") for c in rej[k])]
+    if flagged and not unknown_q:
+        raise Infra("the driver's screen flags %d calls that TimescaleTrace accepts: %s" % (flagged, (res.get("notes") or [""])[0][:400]))
+    ctx.ev.add_impl("generated inputs on GetTimescale/GetLODs screened against the contract in the driver", res["replayed"],
+                    steps=res["steps"], classes=res.get("distinct"))
+    ctx.ev.add_impl("recorded (args, result) pairs of GetTimescale/GetLODs accepted by TimescaleTrace", len(qlines) - nq,
+                    points=cnt.get("trace_points"), rejected=nq)
+    ctx.ev.add_impl("roundTime/shiftTimestamp/calcUTCOffset calls accepted by TimescaleTrace", len(hlines) - (nrej - nq),
+                    rejected=nrej - nq)
+    for s in (res.get("samples") or [])[:2]:
+        ctx.ev.sample(s)
+
+    # 3. the real planner with the model's tiny table over the model's grid
+    res3, out3, rc3 = ctx.go_test("internal/data_model", "TestVerifC22Small",
+                                  env={"VERIF_SMALL_STRIDE": 1 if th else 16, "VERIF_NTRACE": 4000 if th else 500}, timeout=2400)
+    res3 = ctx.need_result(res3, out3, rc3, "TestVerifC22Small")
+    for n in (res3.get("notes") or [])[:5]:
+        ctx.log(n[:500])
+    slines = read_lines(res3["files"][0])
+    rej3, dis3 = judge(ctx, slines, "tiny table", module="TimescaleSmallTrace", timeout=3000)
+    report(ctx, "tiny table", slines, rej3, module="TimescaleSmallTrace")
+    if (res3.get("counters") or {}).get("flagged", 0) and not rej3:
+        raise Infra("the driver's screen flags calls (tiny table) that TimescaleSmallTrace accepts")
+    ctx.ev.add_impl("calls with the model's tiny table screened against the contract in the driver", res3["replayed"],
+                    steps=res3["steps"], classes=res3.get("distinct"))
+    ctx.ev.add_impl("tiny-table pairs accepted by TimescaleSmallTrace", len(slines) - len(rej3), rejected=len(rej3))
+    ctx.ev.set("model_agrees_with_code_on", len(slines) - len(dis3))
+    if dis3:
+        # allowed by the property as long as the contract holds; the model no longer describes the planner
+        k = sorted(dis3)[0]
+        ctx.log("NOTE: the planner's output differs from TimescaleModel on %d of %d sampled inputs, e.g. %s" % (
+            len(dis3), len(slines), brief(json.loads(slines[k]), 500)))
+        ctx.ev.assume("the planner deviates from TimescaleModel on %d of %d sampled inputs of the tiny instance; "
+                      "the model-checking result then speaks about the model only" % (len(dis3), len(slines)))
+
+    ctx.ev.assume("a range that begins after now (shifted by the largest metric offset) has no level of detail: an empty axis is accepted")
+    ctx.ev.assume("month starts and zone offsets handed to the specification come from Go's time package (trusted)")
+    ctx.ev.assume("timestamps between 1969 and 2036 (TLC integers are 32 bit); metric offsets are whole weeks "
+                  "(whole 31-day months for the monthly step) or rejected with the offset error")
+    ctx.ev.assume("the limit of the contract is MaxSlice (8192); the planner's own budget maxPoints+3 is checked on the model only")
+    ctx.ev.assume("level of this check: contract validation of observed outputs plus a small abstract model; "
+                  "no exhaustive design-level result for the real tables")
